@@ -51,6 +51,9 @@ def setCfg (c : Cfg) (kv : String) : Option Cfg :=
     -- contains the key and writes all versions of a user key into one output table)
     | "lsm.ingestScanStop" => if v == "prefixMax" then some c else none
     | "lsm.compactSplitRule" => if v == "userKeyBoundary" then some c else none
+    | "lsm.zeroVersion" =>
+        if v == "found" then some { c with zeroVersionFound := true }
+        else if v == "lost" then some { c with zeroVersionFound := false } else none
     | "db.plainKeyLimit" => do let b ← boolOfString? v; pure { c with plainKeyLimit := b }
     | _ => none
   | _ => none
